@@ -455,6 +455,7 @@ func ruleC12(c *Ctx, r *Report) {
 		r.Check(okStore, "C12-R3", nsFn.Name()+":store-shape", c.Pos(nsFn.Pos()), "for every listed key: Set(cmd, key, HashName(cmd[key].(string))), no early exit", "the rewriter does not store HashName of the string read from the same key for every listed key")
 	}
 
+	namespaceDocumentRule(c, r, p, "C12-R4")
 	// ---- R4: tables + Namespace arms of the pipeline walker
 	requiredNamespaces(c, r, "C12-R4")
 	nArms := 0
